@@ -32,7 +32,28 @@ class C04(SessionCheck):
             out.append({'kind': 'e2e', 'sc': {'transport': 'unix', 'profile': SG.PROFILES[k % len(SG.PROFILES)], 'threads': 3, 'per_thread': 2,
                                               'window': 4, 'notifs': 0, 'seg': 'random', 'seed': rng.randrange(1 << 30), 'timeout': 1.5,
                                               'fault': {'kind': 'close-after-requests', 'n': k}}})
+        # the peer stops reading: a 6 MB request is stuck in the transport write, 64 small asynchronous requests follow, then a
+        # synchronous call with a 1 s timeout - which must return or raise within it, whatever happens to the others
+        out.append({'kind': 'stall', 'transport': 'unix', 'size': 6 * 1024 * 1024, 'timeout': 4.0, 'burst': 64, 'sync_timeout': 1.0})
         return out
+
+    def run_impl(self, case):
+        if case.get('kind') == 'stall':
+            from impl import e2e
+            return e2e.run_stall(case)
+        return SessionCheck.run_impl(self, case)
+
+    def model_lines(self, case):
+        return [] if case.get('kind') == 'stall' else SessionCheck.model_lines(self, case)
+
+    def model_obs(self, case, outs):
+        return None if case.get('kind') == 'stall' else SessionCheck.model_obs(self, case, outs)
+
+    def compare(self, case, io, mo):
+        return None if case.get('kind') == 'stall' else SessionCheck.compare(self, case, io, mo)
+
+    def nontrivial(self, case, io):
+        return True if case.get('kind') == 'stall' else SessionCheck.nontrivial(self, case, io)
 
     def oracle_e2e(self, case, io):
         sc = case['sc']
@@ -58,11 +79,26 @@ class C04(SessionCheck):
                 return ('C04:still-connected', 'session still reports connected after the peer closed')
             if not str(io.get('late', '')).startswith('TransportError'):
                 return ('C04:late-request-not-refused', 'a request after the loss gave %s' % io.get('late'))
+            for key in ('late_commit', 'late_discard', 'late_close'):
+                if key in io and not str(io[key]).startswith('TransportError'):
+                    return ('C04:late-request-not-refused', '%s after the loss gave %s, not a transport error' % (key[5:], io[key]))
             if io.get('worker_alive_after_fault'):
                 return ('C04:worker-alive', 'session thread still alive after the loss')
         return None
 
     def oracle(self, case, io):
+        if case.get('kind') == 'stall':
+            if 'harness_error' in io:
+                return ('C04:harness', io['harness_error'])
+            sy = io.get('sync') or {}
+            if io['burst']['blocked']:
+                return ('C04:submission-blocks', 'submitting asynchronous requests to a session whose peer stopped reading blocked the caller (%d accepted)' % io['burst']['accepted'])
+            if sy.get('state') != 'ok' or sy.get('dt', 0) > case['sync_timeout'] + 3:
+                return ('C04:call-outlived-timeout', 'a synchronous call with timeout %.1f s on a session whose peer stopped reading %s after %.1f s' % (
+                    case['sync_timeout'], 'had not returned' if sy.get('state') != 'ok' else 'returned (%s)' % sy.get('out'), sy.get('dt', -1)))
+            if sy.get('out') == 'reply':
+                return ('C04:foreign-or-partial-reply', 'a synchronous call got a reply from a peer that reads nothing')
+            return None
         if case.get('kind') == 'e2e':
             return self.oracle_e2e(case, io)
         info = case.get('info') or {}
